@@ -92,7 +92,6 @@ var handModelled = map[string]bool{
 	"encodeAttrs": true, "encodeAttr": true, "decodeAttrs": true, "decodeAttr": true,
 	"encodeRow": true, "decodeRow": true,
 	"encodeImportRoaringRequest": true, "decodeImportRoaringRequest": true,
-	"encodeFieldStatus": true, "decodeFieldStatus": true,
 }
 
 // notSerialised: fields of a message that travel outside the message body.
@@ -628,6 +627,17 @@ func (e *env) call(c *ast.CallExpr) (string, *gtype) {
 	case "errors.New":
 		term, _ := e.expr(c.Args[0])
 		return "(some " + term + ")", &gtype{kind: "error"}
+	case "roaring.NewBitmap":
+		// roaring.NewBitmap(xs...): the set of the elements (Base.lean: setOfList); other argument
+		// forms are not known.
+		if len(c.Args) != 1 || !c.Ellipsis.IsValid() {
+			e.fail(c, "roaring.NewBitmap without a single spread argument")
+		}
+		term, at := e.expr(c.Args[0])
+		if at.kind != "slice" || at.elem.kind != "u64" {
+			e.fail(c, "roaring.NewBitmap of something else than []uint64")
+		}
+		return "(setOfList " + term + ")", &gtype{kind: "bitmap"}
 	}
 	// method calls known to the hand model
 	if sel, ok := c.Fun.(*ast.SelectorExpr); ok {
@@ -636,6 +646,10 @@ func (e *env) call(c *ast.CallExpr) (string, *gtype) {
 			if sel.Sel.Name == "Error" && rt.kind == "error" {
 				// m.Err.Error() under `if m.Err != nil`
 				return "(" + recv + ".getD \"\")", &gtype{kind: "string"}
+			}
+			if sel.Sel.Name == "Slice" && rt.kind == "bitmap" && len(c.Args) == 0 {
+				// (*roaring.Bitmap).Slice(): a Bitmap is represented by its ascending slice (Base.lean)
+				return recv, &gtype{kind: "slice", elem: &gtype{kind: "u64"}}
 			}
 			e.fail(c, "method call not handled (model the function by hand)")
 		}
